@@ -399,6 +399,22 @@ pub struct RunStats {
 }
 
 static ABORT: AtomicBool = AtomicBool::new(false);
+
+// A check whose single "case" is a whole history of calls (H-count) tells the watchdog after
+// every call that it is making progress: the hang criterion applies to ONE library call, not to
+// the checker's own loop around many of them.
+const MAX_WORKERS: usize = 256;
+static HEARTBEATS: [AtomicU64; MAX_WORKERS] = [const { AtomicU64::new(0) }; MAX_WORKERS];
+thread_local! {
+    static WORKER_ID: std::cell::Cell<usize> = const { std::cell::Cell::new(usize::MAX) };
+}
+/// called by a check between two library calls of one case
+pub fn heartbeat() {
+    let w = WORKER_ID.with(|c| c.get());
+    if w < MAX_WORKERS {
+        HEARTBEATS[w].fetch_add(1, Ordering::Relaxed);
+    }
+}
 /// after this many violating cases the sweeps stop early (the evidence then says `exhaustive: false`)
 pub const VIOLATION_CAP: u64 = 200_000;
 pub fn stopped_early() -> bool {
@@ -454,7 +470,8 @@ pub fn run_space(
                 }
                 for w in 0..nthreads {
                     let c = current[w].load(Ordering::Relaxed);
-                    let t = ticks[w].load(Ordering::Relaxed);
+                    // the inner input counter and the check's own heartbeat (both mean progress)
+                    let t = ticks[w].load(Ordering::Relaxed).wrapping_add(HEARTBEATS[w % MAX_WORKERS].load(Ordering::Relaxed) << 24);
                     let tid = tids[w].load(Ordering::Relaxed);
                     if c == 0 || c != last[w].0 || t != last[w].1 {
                         last[w] = (c, t, Instant::now(), thread_cpu_ticks(tid));
@@ -489,14 +506,15 @@ pub fn run_space(
                         let mut buf = vec![];
                         let mut k = 0u64;
                         let mut found: Option<Vec<u8>> = None;
+                        let t_plain = ticks[w].load(Ordering::Relaxed);
                         space.visit(c - 1, &mut buf, &mut |b| {
-                            if k == t && found.is_none() {
+                            if k == t_plain && found.is_none() {
                                 found = Some(b.to_vec());
                             }
                             k += 1;
                         });
                         let inp = found.unwrap_or_default();
-                        report_hang(ctx, &space.name(), c - 1, t, &inp, &why);
+                        report_hang(ctx, &space.name(), c - 1, t & 0xff_ffff, &inp, &why);
                         std::process::exit(HANG_EXIT);
                     }
                 }
@@ -513,6 +531,7 @@ pub fn run_space(
                 let mut local = Local::new();
                 let mut buf: Vec<u8> = Vec::with_capacity(256);
                 tids[w].store(current_tid(), Ordering::Relaxed);
+                WORKER_ID.with(|c| c.set(w));
                 loop {
                     if ABORT.load(Ordering::Relaxed) {
                         break;
